@@ -435,7 +435,9 @@ def r3_auto_remove(run, w):
   # who calls apply_auto_removes, and how (private Engine helpers are read in place, so the loop
   # may live in a helper of apply_user_actions)
   top = w.fn("engine.Engine.apply_user_actions")
-  special = {"_bring_all_up_to_date", "_apply_one_user_action", "_undo_to_checkpoint"}
+  a_recalc, a_undo, a_apply = (H.engine_anchor(w, "recalc"), H.engine_anchor(w, "undo"),
+                               H.engine_anchor(w, "apply_one"))
+  special = {a_recalc.name, a_undo.name} | ({a_apply.name} if a_apply is not None else set())
   sel = lambda fi: fi.cls is not None and fi.cls.qualname == "engine.Engine" and \
       fi.name.startswith("_") and fi.name not in special
   I = H.InlinedCFG(w, top, exceptional=False, depth=2, select=sel)
@@ -456,7 +458,7 @@ def r3_auto_remove(run, w):
       continue
     n_calls += len(A)
     first = cfg.nodes[min(A)]
-    allrec = {m.id for (m, c2, nm2) in calls if nm2 == "self._bring_all_up_to_date"}
+    allrec = {m.id for (m, c2, nm2) in calls if nm2 == "self." + a_recalc.name}
     # rounds: a recalculation that follows a round is always followed by another round before
     # the function goes on (so the rounds are repeated, with a recalculation in between, until a
     # round reports that nothing was removed) -- however the loop is spelled
@@ -482,7 +484,7 @@ def r3_auto_remove(run, w):
                           "not be read in place" % fi.qualname)
     if not allrec and H.hidden_in_callees(
         w, fn, lambda c, nm, f: isinstance(c.func, ast.Attribute) and
-        c.func.attr == "_bring_all_up_to_date", depth=4):
+        c.func.attr == a_recalc.name, depth=4):
       raise AnalysisError("%s: _bring_all_up_to_date is only called inside a function that "
                           "could not be read in place" % fi.qualname)
     run.ob(R3, fi.qualname, "loop before out_actions.flush_calc_changes()",
@@ -608,9 +610,14 @@ def r6_regrouped_fields(run, w):
   # column records of the NEW table
   new_cols = set()
   for n in cfg.nodes:
+    # (the call that gets or creates the new summary table: a method of the class that is
+    # handed one of the carried-over lists and whose result is unpacked)
     if n.kind == "stmt" and isinstance(n.stmt, ast.Assign) and \
         isinstance(n.stmt.value, ast.Call) and \
-        fn.name(n.stmt.value) == "self._get_or_create_summary":
+        H.self_method(w, fn, n.stmt.value) is not None and \
+        isinstance(n.stmt.targets[0], (ast.Tuple, ast.List)) and \
+        any(isinstance(a_, ast.Name) and a_.id in carried
+            for a_ in list(n.stmt.value.args) + [k.value for k in n.stmt.value.keywords]):
       for t in n.stmt.targets:
         new_cols |= {x.id for x in ast.walk(t) if isinstance(x, ast.Name)}
   if not new_cols:
